@@ -670,6 +670,20 @@ fn c20_stacks(world: &World) -> Vec<(Vec<Layer>, History)> {
             out.push((vec![Layer::Filter(0)], h));
         }
     }
+    // the same directory discarded as a tree by two layers: nothing but that tree may disappear
+    // (a second cancellation must not take the siblings read later - faulty ones included - away)
+    let dirs: Vec<String> = crate::props_fs::all_entries(world).into_iter().filter(|(rel, is_dir)| *is_dir && !rel.is_empty()).map(|(rel, _)| rel).take(2).collect();
+    for d in dirs {
+        let esc = wax::escape(&d).to_string();
+        let mut h = History::new();
+        h.insert((0, d.clone()), Verdict::Tree);
+        out.push((vec![Layer::Filter(0), Layer::Not(format!("{}/**", esc), NotForm::Text)], h.clone()));
+        out.push((vec![Layer::Not(format!("{}/**", esc), NotForm::Text), Layer::Filter(0)], h.clone()));
+        let mut h2 = h.clone();
+        h2.insert((1, d.clone()), Verdict::Tree);
+        out.push((vec![Layer::Filter(0), Layer::Filter(1)], h2));
+        out.push((vec![Layer::Not(format!("{}/**", esc), NotForm::Text), Layer::Not(format!("{}/**", esc), NotForm::Compiled)], History::new()));
+    }
     out
 }
 
